@@ -1,10 +1,15 @@
 mod merkle;
+mod codec;
+
+#[global_allocator]
+static GLOBAL: codec::Tracking = codec::Tracking;
 use hcommon::parse_cli;
 
 fn main() {
     let cli = parse_cli();
     match cli.domain.as_str() {
         "merkle" => merkle::run(&cli),
+        "codec" => codec::run(&cli),
         d => {
             eprintln!("unknown domain {d}");
             std::process::exit(2);
